@@ -1,9 +1,68 @@
-"""HTTP parser family: C06, C08 (C07 to follow)."""
+"""HTTP parser family: C06, C07, C08."""
+import os
 
-HTTP_RUN = {"harness": "hhttp", "driver": "httpdrv", "fields": ["cache", "err"], "corpus": "http",
-            "quick": {"n": 1500, "shards": 16}, "thorough": {"n": 40000, "shards": 32}}
+from . import core
+
+
+def http_tables(sc):
+    """DESIGN 2.4b: run the real isToken/isHex/isNum/isAlpha/isValidMethodChar over all 256 bytes (plus the
+    method set, the parser state enum and constants) and regenerate lean/NbioVerif/Generated/HttpTables.lean.
+    The file is written (atomically, under the Lean lock) only when its content changes, so an unchanged tree
+    costs no rebuild; `Lemmas/HttpTables.lean` (table = model definition, token table = RFC 7230 tchar) is then
+    re-checked by the lake build of the property."""
+    p = core.run([sc.exe("hhttp"), "facts"], timeout=60)
+    if p.returncode != 0 or "end Http.Gen" not in p.stdout:
+        raise core.TieBroken("hhttp facts failed", p.stderr[-2000:])
+    path = os.path.join(core.LEAN, "NbioVerif", "Generated", "HttpTables.lean")
+    with core.LeanLock():
+        old = open(path).read() if os.path.exists(path) else ""
+        if old == p.stdout:
+            return False, ""
+        os.makedirs(os.path.dirname(path), exist_ok=True)
+        tmp = path + ".tmp%d" % os.getpid()
+        open(tmp, "w").write(p.stdout)
+        os.replace(tmp, path)
+    import difflib
+    d = "\n".join(list(difflib.unified_diff(old.split("\n"), p.stdout.split("\n"), "committed", "regenerated", lineterm="", n=0))[:40])
+    return True, "Generated/HttpTables.lean differs from the committed tables:\n" + d
+
+
+HTTP_RUN = {"harness": "hhttp", "driver": "httpdrv", "fields": ["cache", "err", "st", "msgs"], "corpus": "http",
+            "quick": {"n": 1500, "shards": 16}, "thorough": {"n": 12000, "shards": 32}}
+
+C07_RUN = {"harness": "hhttp7", "driver": "httpdrv", "fields": ["render", "err", "cache", "st", "nb", "offs", "ref"], "corpus": "http7",
+           "quick": {"n": 700, "shards": 16}, "thorough": {"n": 6000, "shards": 32}}
+
+# engine-level "nothing further after an error" (DESIGN 8 #12): real nbhttp engines over loopback in the three I/O modes;
+# implementation-only stream (the Lean side is theorem c08_silent_after_close), so no k=v field is compared
+ENGINE_RUN = {"harness": "hhttpe", "driver": "httpdrv", "fields": [],
+              "quick": {"n": 6, "shards": 3, "timeout": 600}, "thorough": {"n": 60, "shards": 8, "timeout": 1800}}
 
 PROPS = {
+    "C07": {
+        "manifest": {
+            "text": "Lean theorems on the parser model: every production of the HTTP/1.x message grammar (request line, status line, "
+                    "header line, end of headers, Content-Length body, chunk, last chunk, trailer line) is parsed to exactly the events of "
+                    "the abstract message and the parser returns to its idle state at offset |render m|; the processor glue "
+                    "(ServerProcessor/ClientProcessor as functions of the event list) delivers reqSpec m / respSpec m; decision tables "
+                    "framing = RFC 7230 3.3.3 and Close = RFC 7230 6.3 on the agreed domain. Three-way differential on generated "
+                    "messages: real nbio (real processors, what the handler sees), the Lean model and spec, and net/http",
+            "note": "agreement of the Lean spec (reqSpec/respSpec normal form) with net/http is sampled, not proved (the reference is not "
+                    "modelled); neighbours of the agreed domain are classified and counted, not judged",
+            "technique": "Lean 4 proof (compositional, per grammar production, on the byte-at-a-time spec; lifted to the Go-shaped loop in "
+                         "any segmentation by the C06 refinement) + three-way differential correspondence"},
+        "lean": ["NbioVerif.Properties.C07", "NbioVerif.Lemmas.HttpTables"], "drivers": ["httpdrv"], "harness": ["hhttp", "hhttp7"],
+        "facts": [http_tables],
+        "runs": [C07_RUN],
+        "oracles": ["c07-"],
+        "rule": "case = 1..3 pipelined messages drawn from the Msg grammar (or one neighbour of the agreed domain) + a segmentation; distinct "
+                "by hash of (role, method/version, header-count class, framing headers and their spellings, framing kind, chunk count and "
+                "length classes, extensions, trailer count); non-trivial iff a body or trailers are present",
+        "assumptions": ["url.ParseRequestURI / http.ParseHTTPVersion verdicts are inputs of the model (recorded from the real processors); "
+                        "the model's own parseHTTPVersion is cross-checked against the recorded verdicts",
+                        "the reference parser is not modelled: agreement of reqSpec/respSpec with net/http is sampled on every case",
+                        "header names ASCII (strings.ToLower / CanonicalHeaderKey are modelled bytewise)"],
+    },
     "C06": {
         "manifest": {
             "text": "Lean theorem c06_http (any segmentation = one piece, for every byte string, state table and processor verdict) on a "
@@ -11,7 +70,8 @@ PROPS = {
                     "generated (message, segmentation) pairs, and a whole-vs-segmented oracle runs on the implementation alone",
             "note": "model fidelity is sampled (differential run on every check); ReadLimit entry test excluded by hypothesis",
             "technique": "Lean 4 proof (refinement of the Go-shaped index loop to a byte-at-a-time spec) + differential correspondence"},
-        "lean": ["NbioVerif.Properties.C06"], "drivers": ["httpdrv"], "harness": ["hhttp"],
+        "lean": ["NbioVerif.Properties.C06", "NbioVerif.Lemmas.HttpTables"], "drivers": ["httpdrv"], "harness": ["hhttp"],
+        "facts": [http_tables],
         "runs": [HTTP_RUN],
         "oracles": ["c06-"],
         "rule": "case = (message sequence incl. mutated neighbours, segmentation); distinct by hash of (config class, parser-state "
@@ -26,8 +86,9 @@ PROPS = {
                     "<= max(ReadLimit, one read); differential correspondence plus panic/bound/after-error oracles on arbitrary and mutated bytes",
             "note": "model fidelity sampled; panics observed through the parser's recover log line; engine glue after an error modelled as CloseAndClean",
             "technique": "Lean 4 proof (invariants by induction over the input) + differential correspondence"},
-        "lean": ["NbioVerif.Properties.C08"], "drivers": ["httpdrv"], "harness": ["hhttp"],
-        "runs": [HTTP_RUN],
+        "lean": ["NbioVerif.Properties.C08", "NbioVerif.Lemmas.HttpTables"], "drivers": ["httpdrv"], "harness": ["hhttp", "hhttpe"],
+        "facts": [http_tables],
+        "runs": [HTTP_RUN, ENGINE_RUN],
         "oracles": ["c08-"],
         "rule": "same stream as C06 (random bytes, grammar messages and six+ mutation operators, limits drawn around the sizes); "
                 "non-trivial iff bytes were retained across calls or an error was returned",
